@@ -393,6 +393,10 @@ pub fn run(ctx: &mut Ctx) -> R {
     let mut bytes: Vec<u8> = Vec::new();
     let mut pcm: Vec<Vec<i32>> = Vec::new();
     let mut bounds = Vec::new();
+    let variable = ch.draw("syn.variable", 4) == 3;
+    if variable {
+        probe("syn_variable_blocking_strategy");
+    }
     for k in 0..nframes {
         let n = match ch.draw("syn.n", 5) {
             0 => 16,
@@ -411,6 +415,14 @@ pub fn run(ctx: &mut Ctx) -> R {
             return Ok(()); // this draw cannot express the target; not a finding
         };
         let start = bytes.len();
+        let mut m = m;
+        if variable {
+            // blocking-strategy bit set: the coded number is a sample number (legal; the crate's encoder never does this)
+            m.spec.bend.variable = true;
+            if let Some(f) = m.crate_frame.as_mut() {
+                f.header.blocking_strategy = true;
+            }
+        }
         bytes.extend_from_slice(&refflac::write_frame(&m.spec));
         bounds.push((start, bytes.len()));
         frames.push(m.crate_frame);
